@@ -67,6 +67,15 @@ inductive SketchDedup where
   | hashes
   deriving DecidableEq, Repr
 
+/-- The order of the two steps of the sketch merge of `ColumnProfile.__add__`: remove duplicate hashes and then keep the
+`KVM_SIZE` smallest (`sorted(set(a + b))[:KVM_SIZE]`), or keep the `KVM_SIZE` smallest entries of the concatenation and
+then remove duplicates (`sorted(set(heapq.nsmallest(KVM_SIZE, a + b)))` — a hash both sides hold takes two of the
+`KVM_SIZE` places, so fewer than `KVM_SIZE` hashes may be left although more distinct ones were there). -/
+inductive SumSketchOrder where
+  | dedupThenCut
+  | cutThenDedup
+  deriving DecidableEq, Repr
+
 /-- The fixed-length units of `numpy.datetime64` (`Y` and `M` are calendar-dependent and are not modelled). -/
 inductive TUnit where
   | W | D | h | m | s | ms | us | ns
